@@ -91,7 +91,7 @@ def main():
         if LIFECYCLE_RUNS:
             # the specification the hook logs are replayed through is itself checked for every interleaving
             ld = design_check("MC_Lifecycle", "MC_Lifecycle.cfg", work, workers=8, timeout=600)
-            if tier == "thorough" and pid in ("C09", "C11"):
+            if tier == "thorough" and pid == "C09":
                 # three tunnels (one websocket, two legacy): 266 million distinct states, about 30-45 minutes on 16 cores
                 ld = design_check("MC_Lifecycle", "MC_Lifecycle3.cfg", work, workers=16, timeout=5400)
             lv, summary = lifecycle_violations(pid, work)
